@@ -2,17 +2,27 @@
  * every split of matches near block edges) must yield conformant frames; with validation on, single-field
  * corruptions that break a structural rule must be refused; everything must be memory-safe. */
 #include "common.h"
+#include "zdict.h"
 
 #define SRCMAX (400u << 10)
 #define MAXSEQ (SRCMAX / 3 + 64)
 static u8 *g_buf /* dict + src, contiguous */, *g_dst, *g_scratch; static ZSTD_Sequence *g_seq, *g_seq2;
 static int g_big;
 enum { DICTLEN = 700 };
+static u8 g_sdict[DICTLEN + 4096]; static size_t g_sdictLen;      /* structured dictionary: header of g_sdictLen - DICTLEN bytes, then the DICTLEN content bytes */
 
 static void init(void) {
     g_big = (int)vx_opt_int("--big", 0);
     g_buf = (u8*)malloc(DICTLEN + SRCMAX + 64); g_dst = (u8*)malloc(ZSTD_compressBound(SRCMAX) + 1024); g_scratch = (u8*)malloc(SRCMAX + 64);
     g_seq = (ZSTD_Sequence*)malloc(sizeof(ZSTD_Sequence) * MAXSEQ); g_seq2 = (ZSTD_Sequence*)malloc(sizeof(ZSTD_Sequence) * MAXSEQ);
+    /* dictionary mode 3: a structured dictionary (magic, ID, entropy tables) whose content section is the same 700 bytes the other modes use as raw content */
+    {   static u8 samples[8 * 600]; size_t sizes[8]; u8 content[DICTLEN]; fill_text(content, DICTLEN, 77);
+        for (int i = 0; i < 8; i++) { fill_text(samples + i * 600, 600, 40 + (uint32_t)i); memcpy(samples + i * 600 + 50, content + 100 + 20 * i, 200); sizes[i] = 600; }
+        ZDICT_params_t zp; memset(&zp, 0, sizeof zp); zp.dictID = 4242;
+        size_t r = ZDICT_finalizeDictionary(g_sdict, sizeof g_sdict, content, DICTLEN, samples, sizes, 8, zp);
+        if (ZDICT_isError(r) || r <= DICTLEN || memcmp(g_sdict + r - DICTLEN, content, DICTLEN)) { fprintf(stderr, "c17 init: no structured dictionary (%s)\n", ZDICT_isError(r) ? ZDICT_getErrorName(r) : "content not at the tail"); g_sdictLen = 0; }
+        else g_sdictLen = r;
+    }
 }
 
 /* sources: periodic text with planted matches at chosen distances; `kind` varies the texture */
@@ -86,7 +96,7 @@ static size_t producer_fn(void* st, ZSTD_Sequence* out, size_t cap, const void* 
 }
 
 static void body(void) {
-    int kind = vx_choose(g_big == 2 ? 4 : g_big ? 6 : 7), delim = vx_choose(2), repSearch = vx_choose(3), dictMode = vx_choose(g_big == 2 ? 1 : 3), minMatch = (g_big == 2 ? 5 : 3) + vx_choose(g_big == 2 ? 3 : 5), variant = vx_choose(8);
+    int kind = vx_choose(g_big == 2 ? 4 : g_big ? 6 : 7), delim = vx_choose(2), repSearch = vx_choose(3), dictMode = vx_choose(g_big == 2 ? 1 : 4), minMatch = (g_big == 2 ? 5 : 3) + vx_choose(g_big == 2 ? 3 : 5), variant = vx_choose(8);
     if (!g_big && kind == 6) kind = 10;
     if (g_big == 2) { kind += 6; if (!(variant == 0 || variant == 5 || variant == 6)) { vx_obs_u64(16); return; } }
     int oversize = (variant == 7);    /* explicit delimiters with one block larger than the frame's block-size limit: to be refused, or emitted within the limit */
@@ -94,7 +104,8 @@ static void body(void) {
     size_t B = g_big ? (128u << 10) : 1024;              /* block size in force */
     size_t n = g_big == 2 ? (B + 65538 + 65536 + 300) : g_big ? (2 * B + 4321) : (4 * B + 333);
     size_t W = g_big ? (1u << 18) : 2048; int wlog = g_big ? 18 : 11;
-    size_t dictLen = dictMode ? DICTLEN : 0;
+    size_t dictLen = dictMode ? DICTLEN : 0; long knownGap = 0;
+    if (dictMode == 3 && (!g_sdictLen || g_big)) { vx_obs_u64(19); return; }
     fill_text(g_buf, DICTLEN, 77);
     u8* src = g_buf + DICTLEN; make_source(kind, n, src);
     if (dictMode) memcpy(src + 100, g_buf + 300, 200);     /* content found in the dictionary */
@@ -155,6 +166,8 @@ static void body(void) {
     if (dictMode == 1) ZSTD_CCtx_refPrefix(c, g_buf, DICTLEN);
     if (dictMode == 2) { ZSTD_compressionParameters cdp = ZSTD_getCParams(3, n, DICTLEN); cdp.minMatch = (unsigned)minMatch; cdp.windowLog = (unsigned)wlog;   /* a CDict's parameters supersede the context's (zstd.h) */
                          cd = ZSTD_createCDict_advanced(g_buf, DICTLEN, ZSTD_dlm_byRef, ZSTD_dct_rawContent, cdp, ZSTD_defaultCMem); ZSTD_CCtx_refCDict(c, cd); }
+    if (dictMode == 3) { size_t e = ZSTD_CCtx_loadDictionary(c, g_sdict, g_sdictLen); if (ZSTD_isError(e)) { vx_fail("structured dictionary refused: %s", ZSTD_getErrorName(e)); goto done; } }
+    const u8* rdict = dictMode == 3 ? g_sdict : dictMode ? g_buf : NULL; size_t rdictLen = dictMode == 3 ? g_sdictLen : dictLen;
     size_t cap = ZSTD_compressBound(n) + 512;
 
     /* ---- valid parse => conformant frame decoding to the source ---- */
@@ -162,7 +175,7 @@ static void body(void) {
     if (ZSTD_isError(r) && oversize) { vx_obs_u64(18); vx_stat_add("oversize_blocks_refused", 1); goto done; }
     if (ZSTD_isError(r)) { vx_fail("valid parse refused: %s", ZSTD_getErrorName(r)); goto done; }
     {   refcheck_t rc; rc_init(&rc); rc.maxBlockSize = g_big ? 0 : B;
-        if (ref_check(&rc, g_dst, r, dictMode ? g_buf : NULL, dictLen, src, n, g_scratch, SRCMAX)) { vx_fail("frame from a valid parse: %s", rc.err); goto done; }
+        if (ref_check(&rc, g_dst, r, rdict, rdictLen, src, n, g_scratch, SRCMAX)) { vx_fail("frame from a valid parse: %s", rc.err); goto done; }
         vx_stat_add("sequences_in_valid_frames", (long)rc.nseq); vx_obs_u64(vx_hash(g_dst, r)); if (rc.nseq > 2) vx_nontrivial();
     }
     /* ---- single-field corruptions, validation on ---- */
@@ -200,9 +213,11 @@ static void body(void) {
                 g_seq2[i].offset = M[k].off; g_seq2[i].matchLength = M[k].ml; g_seq2[i].litLength = M[k].ll;
                 ZSTD_CCtx_reset(c, ZSTD_reset_session_only); if (dictMode == 1) ZSTD_CCtx_refPrefix(c, g_buf, DICTLEN);
                 size_t e = ZSTD_compressSequences(c, g_dst, cap, g_seq2, ns, src, n); nsafe++;
+                if (M[k].mustFail && !ZSTD_isError(e) && dictMode == 3 && k == 0 && ms <= W) { knownGap++; njudged++; continue; }      /* judged at the end of the execution, so that it hides nothing else */
                 if (M[k].mustFail) { njudged++; if (!ZSTD_isError(e)) { vx_fail("validation on, sequence %s: %s accepted (match starts at %zu, window %zu, dictionary %zu)", delim ? "list with delimiters" : "list", M[k].what, ms, W, dictLen); goto done; } }
             }
         }
+        if (knownGap) { vx_fail("validation on, structured dictionary (header %zu bytes, content %d): offset one beyond the dictionary content at the start of its match accepted", g_sdictLen - DICTLEN, (int)DICTLEN); goto done; }
         vx_stat_add("corruptions_judged", njudged); vx_stat_add("corruptions_run_for_memory_safety", nsafe);
         /* destination capacities for the sequence API: error, never overrun */
         for (size_t cp2 = 0; cp2 <= (g_big ? 64 : r + 8); cp2 += (g_big ? 1 : 7)) {
